@@ -625,7 +625,20 @@ fn judge_all(case: &ConcCase, out: &ConcOut, stats: &mut Stats) -> Vec<Violation
                                     | Op::HDropUnwind { .. }
                             )
                         });
-                        if only_appends && !d.0.is_empty() {
+                        // the count is only meaningful when this block of bytes cannot occur
+                        // inside another block that was written (setup included)
+                        let others_contain = case
+                            .threads
+                            .iter()
+                            .flatten()
+                            .chain(case.setup.iter())
+                            .filter_map(|o| match o {
+                                Op::AppendAll { d: x, .. } | Op::HWrite { d: x, .. } | Op::WriteAll { d: x, .. } => Some(x),
+                                _ => None,
+                            })
+                            .filter(|x| !std::ptr::eq(*x, d))
+                            .any(|x| !d.0.is_empty() && x.0.len() >= d.0.len() && x.0.windows(d.0.len()).any(|w| w == &d.0[..]));
+                        if only_appends && !d.0.is_empty() && !others_contain {
                             let total_hits: usize = t
                                 .nodes
                                 .values()
@@ -760,7 +773,7 @@ fn generate(seed: u64, idx: u64, rng: &mut Rng) -> ConcCase {
         m.after(&op, &out, &pre);
         setup.push(op);
     }
-    let family = rng.weighted(&[54, 14, 14, 10, 8]);
+    let family = rng.weighted(&[53, 14, 14, 10, 8, 1]);
     let mut linz = linz;
     let mut setup = setup;
     let nthreads = if linz { rng.range(2, 3) } else { rng.range(2, 4) };
@@ -797,6 +810,43 @@ fn generate(seed: u64, idx: u64, rng: &mut Rng) -> ConcCase {
                     }
                 }
                 threads.push(ops);
+            }
+        },
+        5 => {
+            // scale: a call that works through hundreds of entries, or hundreds of kilobytes, must
+            // be as atomic as on a handful (cut-offs, slices and "fairness" yields are exactly
+            // where a guard gets released in the middle)
+            linz = true;
+            if rng.chance(1, 2) {
+                let n = *rng.pick(&[257usize, 300, 520]);
+                setup = vec![Op::MkdirP { p: "/big/sub".into() }];
+                for i in 0..n {
+                    setup.push(Op::Mkfile { p: format!("/big/{}f{}", if i % 5 == 0 { "sub/" } else { "" }, i) });
+                }
+                threads.push(vec![if rng.chance(3, 4) { Op::RemoveAll { p: "/big".into() } } else { Op::MoveP { s: "/big".into(), d: "/moved".into() } }]);
+                for _ in 0..2 {
+                    let mut ops = vec![];
+                    for _ in 0..2 {
+                        let i = rng.below(n);
+                        ops.push(match rng.below(5) {
+                            0 => Op::Exists { p: format!("/big/{}f{}", if i % 5 == 0 { "sub/" } else { "" }, i) },
+                            1 => Op::IsDir { p: "/big".into() },
+                            2 => Op::AllFiles { p: "/big".into() },
+                            3 => Op::Exists { p: format!("/big/{}f{}", if (n - 1) % 5 == 0 { "sub/" } else { "" }, n - 1) },
+                            _ => Op::IsDir { p: "/big/sub".into() },
+                        });
+                    }
+                    threads.push(ops);
+                }
+            } else {
+                let size = *rng.pick(&[70_000usize, 300_000, 600_000]);
+                setup = vec![Op::WriteAll { p: "/f".into(), d: Bytes(b"<x>".to_vec()) }];
+                let mut block = format!("<blk{}>", idx).into_bytes();
+                block.resize(size, b'A');
+                threads.push(vec![Op::OpenAppend { h: 0, p: "/f".into() }, Op::HWrite { h: 0, d: Bytes(block) }, Op::HFlush { h: 0 }, Op::HDrop { h: 0 }]);
+                for t in 0..2 {
+                    threads.push(vec![Op::AppendAll { p: "/f".into(), d: Bytes(format!("<b{}.{}>", idx, t).into_bytes()) }]);
+                }
             }
         },
         4 => {
